@@ -7,7 +7,6 @@ mod cbor;
 mod engine;
 mod exec;
 mod faults;
-mod findings;
 mod honest;
 
 #[global_allocator]
@@ -34,15 +33,16 @@ fn main() {
         let set = honest::HonestSet::build(&honest::HonestCfg::default_small());
         for e in &set.encodings {
             println!(
-                "{:45} {:32} len={:6} hot={:4} statement={}",
+                "{:45} {:32} len={:6} hot={:4} words={:3} statement={}",
                 e.ty,
                 e.form,
                 e.bytes.len(),
                 e.hot.len(),
+                e.words.len(),
                 e.in_statement
             );
             for en in &e.entries {
-                println!("      {:75} {:?}", en.name, en.route);
+                println!("      {}", en.name);
             }
         }
         return;
